@@ -13,6 +13,7 @@ import (
 	"sort"
 	"strings"
 	"sync/atomic"
+	"unsafe"
 	"verif/internal/envrun"
 
 	"github.com/google/jsonschema-go/jsonschema"
@@ -25,7 +26,8 @@ import (
 )
 
 // Snapshot renders everything observable about a value: the pointer graph
-// (addresses), every exported field, map contents, slice contents and lengths.
+// (addresses), every exported field, map contents, slice contents and lengths, and a shallow
+// fingerprint (identity, size) of every unexported field of addressable structs.
 func Snapshot(x any) string {
 	var b strings.Builder
 	snap(&b, reflect.ValueOf(x), map[uintptr]bool{})
@@ -95,6 +97,29 @@ func snap(b *strings.Builder, v reflect.Value, seen map[uintptr]bool) {
 				b.WriteString(v.Type().Field(i).Name)
 				b.WriteByte('=')
 				snap(b, v.Field(i), seen)
+				b.WriteByte(';')
+			} else if f := v.Field(i); f.CanAddr() {
+				// an unexported field (a cache the library might keep inside the caller's value):
+				// a shallow fingerprint - identity and size, not the contents
+				f = reflect.NewAt(f.Type(), unsafe.Pointer(f.UnsafeAddr())).Elem()
+				b.WriteString(v.Type().Field(i).Name)
+				b.WriteByte('~')
+				switch f.Kind() {
+				case reflect.Pointer, reflect.Map, reflect.Slice, reflect.Chan, reflect.Func, reflect.UnsafePointer:
+					if f.IsNil() {
+						b.WriteString("nil")
+					} else if f.Kind() == reflect.Pointer || f.Kind() == reflect.Func || f.Kind() == reflect.Chan || f.Kind() == reflect.UnsafePointer {
+						fmt.Fprintf(b, "%x", f.Pointer())
+					} else {
+						fmt.Fprintf(b, "%x:%d", f.Pointer(), f.Len())
+					}
+				case reflect.Interface:
+					fmt.Fprintf(b, "if:%v", f.IsNil())
+				case reflect.Struct, reflect.Array:
+					fmt.Fprintf(b, "zero:%v", f.IsZero())
+				default:
+					fmt.Fprintf(b, "%v", f.Interface())
+				}
 				b.WriteByte(';')
 			}
 		}
